@@ -241,6 +241,12 @@ var c18Plants = []c18Plant{
 	{"R", "a := -\"s\"", 6, false},
 	{"R", "a := [1, # c\n nosuch()]", 14, false},
 	{"R", "a := r\"x\ny\" + 1", 5, false},
+	// failed variable / container access and a failed import: positioned at the identifier / the import
+	// token since fixes/C18-access-errors-positioned.patch (before: bare errors without any position)
+	{"R", "xs := [1, 2]; y := xs[5]", 19, false},
+	{"R", "un := 1; y := un.a", 14, false},
+	{"R", "un := 1\nun[0]", 8, false},
+	{"R", "import \"nofile\" as imp", 0, false},
 }
 
 // c18Plant1 puts a plant into random well-formed surroundings. Runtime plants come in four
